@@ -1,4 +1,4 @@
-from hdrcommon import GEN_RULE, hdr_spec
+from hdrcommon import GEN_RULE, hdr_spec, spine_scripts
 from meta import COMMON_NOTE
 
 SPEC = hdr_spec(
@@ -6,7 +6,7 @@ SPEC = hdr_spec(
     prefixes={"C11"}, profiles=[("saveload", 8), ("mixed", 2)],
     rule=GEN_RULE + "`dump; save; load|loadd; dump` at arbitrary positions, repeated generations, branch files appended to after pruning, continuing submissions on the "
          "loaded repository; retained depth = side branches whose fork point is within the load depth; non-trivial = at least 8 submissions",
-    props_file="C11", thorough_n=5000,
+    props_file="C11", extra=spine_scripts(['files']), thorough_n=5000,
     assumptions=["legacy version-0 header files (migration) are not generated: the model returns 'migrate: not modelled' for them; empty storage is covered"],
     partial_note="observational equivalence of the loaded repository is checked on every generated history, not yet proved; migration of version-0 files is not covered.")
 
